@@ -1015,7 +1015,99 @@ def _numeric_pow_callers(F, s, e):
     uc = k2.call_blocks(un, "types::numeric::Numeric::pow")
     res2, matched2 = k2.cut_gate(un, uc, acc)
     zg = zg and bool(uc) and len(matched2) >= 2 and all(res2.values())
-    return (mg and zg), ("callers %s; Number::pow gate %s; eval_prefix zero-base gate %s" % ([c.split("::")[-1] for c in callers], mg, zg))
+    # every exponent handed to Numeric::pow is provably != i32::MIN (the `-exp` inside would overflow)
+    bad_exp = []
+    for c in callers:
+        cf = F.find(CORE, c)
+        for bb in k2.call_blocks(cf, "types::numeric::Numeric::pow"):
+            ok, why = exponent_not_min(F, cf, bb)
+            if not ok:
+                bad_exp.append("%s at %s: %s" % (c, cf.where(bb), why))
+    if bad_exp:
+        return False, "an exponent handed to Numeric::pow may be i32::MIN: " + "; ".join(bad_exp)
+    return (mg and zg), ("callers %s; Number::pow gate %s; eval_prefix zero-base gate %s; exponents != i32::MIN" % ([c.split("::")[-1] for c in callers], mg, zg))
+
+
+I32_MIN = -2147483648
+
+
+def _only_literal_exponents(F, fn):
+    """fast_decompose: the only i32 values in the function are the elements of literal i32 arrays in its HIR (none
+    i32::MIN): no cast to i32, no i32 arithmetic, no i32 returned by a call in the MIR."""
+    from facts import hir_walk
+    arrays = []
+    for n in hir_walk(F.hir_of(fn)["body"]):
+        if n.get("k") == "Array" and n.get("ty", "").startswith("[i32;"):
+            vals = []
+            for e in n["elems"]:
+                neg = e.get("k") == "Unary" and e.get("op") == "Neg"
+                lit = e["a"] if neg else e
+                if lit.get("k") != "Lit" or lit["lit"].get("lit") != "int":
+                    return False
+                vals.append(-lit["lit"]["v"] if neg else lit["lit"]["v"])
+            arrays.append(vals)
+    for i, j, st in fn.stmts():
+        rv = st.get("rv", {})
+        if st["k"] != "assign":
+            continue
+        if rv.get("k") == "cast" and rv.get("to") == "i32":
+            return False
+        if rv.get("k") in ("binop", "checked_binop", "unop") and rv.get("aty") == "i32" and rv.get("op") not in ("Eq", "Ne", "Lt", "Le", "Gt", "Ge"):
+            return False
+    for bb, t in fn.calls():
+        if t["dest"].get("ty") == "i32":
+            return False
+    return bool(arrays) and all(v != I32_MIN for a in arrays for v in a)
+
+
+def exponent_not_min(F, fn, bb):
+    """The i32 exponent argument of the Numeric::pow call in block bb cannot be i32::MIN: a constant, a value behind a
+    dominating `!= i32::MIN` test, the payload of an Option::filter whose closure is `x != i32::MIN`, or (Number::powi)
+    a parameter whose every caller passes such a value / sits behind Number::pow's strict magnitude gate."""
+    import re
+    t = fn.blocks[bb]["term"]
+    ap = fn.apath(t["args"][1])
+    txt = ap_str(ap)
+    if ap[0][0] == "const":
+        return (ap[0][1] != I32_MIN), "constant %s" % ap[0][1]
+    for g in fn.guards_of(bb):
+        d = fn.guard_desc(g)
+        if d[0] != "bool":
+            continue
+        r = d[1][0]
+        if r[0] == "binop" and r[1] in ("Ne", "Eq") and not d[1][1]:
+            sides = [r[2], r[3]]
+            if any(x[0] == ("const", I32_MIN) for x in sides) and any(ap_str(x) == txt for x in sides):
+                if (r[1] == "Ne") == (d[2] is True):
+                    return True, "behind `!= i32::MIN`"
+    if "Option::<T>::filter(" in txt:
+        for cp in re.findall(r"closure:([^{]+(?:\{closure#\d+\})+)", txt):
+            for c in F.closures_of(fn):
+                if c.path != cp:
+                    continue
+                for i, j, st in c.stmts():
+                    rv = st.get("rv", {})
+                    if st["k"] == "assign" and st["place"]["l"] == 0 and rv.get("k") == "binop" and rv["op"] == "Ne" and \
+                            any((const_of(o) or {}).get("int") == I32_MIN for o in (rv["a"], rv["b"])):
+                        return True, "payload of filter(|v| v != i32::MIN)"
+    if ap[0][0] == "arg" and not ap[1]:
+        G = cg.get(F)
+        k = ap[0][1]
+        callers = [F.fns[a] for a, bs in G.edges.items() if fn.id in bs and a != fn.id]
+        if not callers:
+            return False, "parameter with no analysable caller"
+        for cf in callers:
+            for cb in k2.call_blocks(cf, fn.path):
+                cap = cf.apath(cf.blocks[cb]["term"]["args"][k - 1])
+                if cap[0][0] == "const" and cap[0][1] != I32_MIN:
+                    continue
+                if _magnitude_gate(F, Site(cf, cb, "call", "powi", cf.blocks[cb]["term"], False), {})[0]:
+                    continue
+                if cf.path == "algorithms::fast_decompose::fast_decompose" and _only_literal_exponents(F, cf):
+                    continue
+                return False, "caller %s passes %s" % (cf.path, ap_str(cap)[:80])
+        return True, "every caller passes a constant or sits behind the strict magnitude gate"
+    return False, "exponent %s is not provably != i32::MIN" % txt[:100]
 
 
 def _operands_reset_to_one(F, s, e):
